@@ -186,3 +186,34 @@ pub fn table_case_strategy(g: TableGen) -> BoxedStrategy<Case> {
         })
         .boxed()
 }
+
+pub struct SetGen {
+    pub prop: u64,
+    pub weights: &'static [(u16, u32)],
+    pub max_ops: usize,
+    pub generic_pct: u32,
+    pub plain_pct: u32,
+}
+
+pub fn set_case_strategy(g: SetGen) -> BoxedStrategy<Case> {
+    let SetGen { prop, weights, max_ops, generic_pct, plain_pct } = g;
+    let u = prop_oneof![2 => Just(4u64), 3 => Just(8u64), 4 => Just(16u64), 3 => Just(32u64), 2 => Just(100u64)];
+    (u, plan_strategy(), plan_strategy(), cap_strategy(), cap_strategy(), 0u32..100, 0u32..100)
+        .prop_flat_map(move |(u, plan, plan_b, cap, cap_b, be, el)| {
+            let ops = vec(ops_strategy(hbv::specs::SET_OPS, weights, u), 0..max_ops);
+            ops.prop_map(move |ops| {
+                let mut c = Case::new("set");
+                c.set("prop", prop);
+                c.set("u", u);
+                c.set("cap", cap);
+                c.set("b_cap", cap_b);
+                c.set("backend", (be < generic_pct) as u64);
+                c.set("elem", (el < plain_pct) as u64);
+                set_plan(&mut c, "", plan);
+                set_plan(&mut c, "b_", plan_b);
+                c.ops = ops;
+                c
+            })
+        })
+        .boxed()
+}
